@@ -1,0 +1,16 @@
+//go:build verif
+
+// Contracts for the bmverif deductive checker (comment-only; compiled only under -tags verif).
+
+package bmline
+
+//@ props C14
+
+// the text of an element (the empty string for a missing element)
+//@ func (be *BasmElement) GetValue() string
+//@   pure
+//@   reads be.string
+
+//@ func (bl *BasmLine) String() string
+//@   pure
+//@   trusted
